@@ -5,6 +5,7 @@ from __future__ import annotations
 import numpy as np
 import pandas as pd
 
+from glotaran.builtin.io.pandas.csv import is_text_column
 from glotaran.io import ProjectIoInterface
 from glotaran.io import register_project_io
 from glotaran.parameter import Parameters
@@ -29,7 +30,12 @@ class ExcelProjectIo(ProjectIoInterface):
         -------
             :class:`Parameters`
         """
-        df = pd.read_excel(file_name, na_values=["None", "none"])
+        header = pd.read_excel(file_name, nrows=0).columns
+        df = pd.read_excel(
+            file_name,
+            na_values=["None", "none"],
+            dtype={column: str for column in header if is_text_column(column)},
+        )
         df.columns = [column.lower() for column in df.columns]
         df = df.rename(columns=OPTION_NAMES_DESERIALIZED)
         safe_dataframe_fillna(df, "minimum", -np.inf)
